@@ -7,12 +7,12 @@ toolchain go1.23.5
 require (
 	github.com/anishathalye/porcupine v1.3.0
 	github.com/cybergarage/go-redis v0.0.0
+	github.com/cybergarage/go-tracing v1.1.3
 	golang.org/x/tools v0.29.0
 )
 
 require (
 	github.com/cybergarage/go-logger v1.3.4 // indirect
-	github.com/cybergarage/go-tracing v1.1.3 // indirect
 	github.com/google/uuid v1.6.0 // indirect
 	golang.org/x/mod v0.22.0 // indirect
 	golang.org/x/sync v0.10.0 // indirect
